@@ -45,7 +45,7 @@ def run(ck):
                     o = mgr.And([mgr.Or(list(c)) for c in rw.cnf_as_set(f, env)])
                 else:
                     o = rw.PolarityCNFizer(env).convert_as_formula(f)
-                ev["out"] = term_io.export(o)
+                ev["out"] = term_io.export_result(o)
                 ev["res"] = "ok"
                 ck.nontrivial((proc, term_io.term_key(ev["f"])))
             except Exception as ex:
@@ -56,7 +56,7 @@ def run(ck):
         try:
             ack = rw.Ackermannizer(env)
             o = ack.do_ackermannization(f)
-            ev["out"] = term_io.export(o)
+            ev["out"] = term_io.export_result(o)
             ev["map"] = [{"app": term_io.export(t), "c": c.symbol_name()} for t, c in ack.get_term_to_const_dict().items()]
             ev["res"] = "ok"
             ck.nontrivial(("ack", term_io.term_key(ev["f"])))
@@ -75,7 +75,7 @@ def run(ck):
         ev = new_ev("ack", "ack_reused_instance", f)
         try:
             o = shared_ack.do_ackermannization(f0)
-            ev["out"] = term_io.export(o)
+            ev["out"] = term_io.export_result(o)
             ev["map"] = [{"app": term_io.export(t), "c": c.symbol_name()} for t, c in shared_ack.get_term_to_const_dict().items()]
             ev["res"] = "ok"
             ck.nontrivial(("ack_reused", term_io.term_key(ev["f"])))
@@ -87,7 +87,7 @@ def run(ck):
         for proc, conv in (("cnf_reused_instance", shared_cnf), ("polarity_cnf_reused_instance", shared_pol)):
             ev = new_ev("cnf", proc, f)
             try:
-                ev["out"] = term_io.export(conv.convert_as_formula(f))
+                ev["out"] = term_io.export_result(conv.convert_as_formula(f))
                 ev["res"] = "ok"
                 ck.nontrivial((proc, term_io.term_key(ev["f"])))
             except Exception as ex:
